@@ -154,5 +154,6 @@ func extras(args []string) {
 		}
 		w.Emit(out.M{"op": "bookline", "start": proj.Position(pos, turn), "lines": plain, "probes": probes})
 	}
+	uciInfo(ctx, r, w, *n/2+1)
 	w.Close()
 }
